@@ -513,12 +513,14 @@ Apply_(s, r) ==
         ELSE [s |-> To("called"), eff |-> Call("func", acc)] IN
   CASE s.pc = "init" -> Go(1, <<>>)
     [] s.pc = "arg" -> Go(s.i + 1, Append(s.acc, r.v))
-    [] s.pc = "called" -> [s |-> To("end"), eff |-> Return(r.v)]
+    [] s.pc = "called" -> [s |-> To("end"), eff |-> Return(IF cfg.par.awres THEN Node("awaitable-result", <<r.v>>) ELSE r.v)]
 
-\* sync(f)(x): f is called once; its (awaited) result or its exception is the outcome
+\* sync(f): every call of the wrapper calls f once; its (awaited) result or its exception is the
+\* outcome -- also when some calls of f return plain values and others awaitables
 Sync(s, r) ==
-  CASE s.pc = "init" -> [s |-> To("called"), eff |-> Call("func", <<Item(1, 1)>>)]
-    [] s.pc = "called" -> [s |-> To("end"), eff |-> Return(r.v)]
+  CASE s.pc = "init" -> [s |-> To("c1"), eff |-> Call("func", <<Item(1, 1)>>)]
+    [] s.pc = "c1" -> [s |-> [pc |-> "c2", v1 |-> r.v], eff |-> Call("func", <<Item(1, 2)>>)]
+    [] s.pc = "c2" -> [s |-> To("end"), eff |-> Return(<<s.v1, r.v>>)]
 
 ---------------------------------------------------------------------------
 (* Dispatch and configuration space                                        *)
@@ -572,8 +574,9 @@ NoPar == [z |-> 0]
 
 ConfigsOf(t) ==
   CASE t = "zip" ->
+         \* key 0 stands for an item that is the object None (nothing may be read into that)
          {[tool |-> t, par |-> [strict |-> b], data |-> d] :
-             b \in BOOLEAN, d \in UNION {DataSets(n, K1) : n \in 0..MaxSrc}}
+             b \in BOOLEAN, d \in UNION {DataSets(n, K01) : n \in 0..MaxSrc}}
     [] t = "map" ->
          {[tool |-> t, par |-> NoPar, data |-> d] : d \in UNION {DataSets(n, K1) : n \in 1..2}}
     [] t \in {"filter", "filterfalse"} ->
@@ -643,9 +646,10 @@ ConfigsOf(t) ==
     [] t = "await_each" ->
          {[tool |-> t, par |-> NoPar, data |-> d] : d \in DataSets(1, K1)}
     [] t = "apply" ->
-         {[tool |-> t, par |-> NoPar, data |-> d] : d \in {dd \in DataSets(2, K1) : Len(dd[1]) + Len(dd[2]) <= MaxLen + 1}}
+         \* awres: the function's own result is an awaitable object -- apply returns it, it does not await it
+         {[tool |-> t, par |-> [awres |-> b], data |-> d] : b \in BOOLEAN, d \in {dd \in DataSets(2, K1) : Len(dd[1]) + Len(dd[2]) <= MaxLen + 1}}
     [] t = "sync" ->
-         {[tool |-> t, par |-> NoPar, data |-> <<<<1>>>>]}
+         {[tool |-> t, par |-> NoPar, data |-> <<<<1, 1>>>>]}
 
 Configs == UNION {ConfigsOf(t) : t \in Tools}
 
